@@ -217,6 +217,17 @@ def expectAln (rows : XRows) : String :=
   let l := match rows with | r :: _ => r.2.length | [] => 0
   s!"ok {autoAlphabet (rows.map (·.2))} {l} {encXRows rows}"
 
+/-- `utils.ParseAlignmentAuto`: dispatch on the first byte; default parser options -/
+def modelAuto (strict : Bool) (bs : List Byte) : Option String :=
+  match bs with
+  | [] => some "err"          -- ReadByte fails
+  | c :: _ =>
+    let fmt := if c == 62 then "fasta" else if c == 35 then "nexus" else if c == 67 then "clustal" else "phylip"
+    match modelParse fmt { strict := strict } bs with
+    | none => none
+    | some (.ok (some a)) => some s!"fmt={fmt} ok {encAln a}"
+    | some r => some (encPRes r)
+
 def encMulti (als : List Aln) (ok : Bool) : String :=
   let body := if als.isEmpty then "_" else ";".intercalate (als.map fun a => (encAln a).replace " " "/")
   s!"multi {als.length} {body} end={if ok then "ok" else "err"}"
@@ -230,6 +241,18 @@ def modelMulti (o : POpts) (bs : List Byte) : String :=
   | .stop .panic => "panic"
   | .stop .hang => "hang"
   | .stop .error => "err"
+
+/-- convert through the formats in turn: write, parse with default options (Phylip strict iff written strict) -/
+def chainModel : List (String × WOpts) → Nat → Aln → String
+  | [], _, a => "ok " ++ encAln a
+  | (f, w) :: rest, k, a =>
+    match modelWrite f w a.alphabet { length := a.length, rows := a.rows } with
+    | none => "unmodelled"
+    | some out =>
+      match modelParse f { strict := w.strict } out with
+      | none => "unmodelled"
+      | some (.ok (some a')) => chainModel rest (k + 1) a'
+      | some _ => s!"err-step {k}"
 
 def handle : Handler := fun op args impl =>
   match op, args with
@@ -260,13 +283,16 @@ def handle : Handler := fun op args impl =>
     let o ← decPOpts o
     let bs ← unhexz hex
     some ⟨canon (modelMulti o bs) impl, multiVerdict o impl⟩
-  | "auto", [_strict, hex] => do
+  | "auto", [strict, hex] => do
     let bs ← unhexz hex
+    let m := match modelAuto (decBool strict) bs with
+      | some r => canon r impl
+      | none => "unmodelled"
     -- the detected format is reported in front of the outcome
     let (fmt, rest) := match impl.splitOn " " with
       | f :: r => if f.startsWith "fmt=" then ((f.drop 4).toString, " ".intercalate r) else ("phylip", impl)
       | [] => ("phylip", impl)
-    some ⟨"unmodelled", c03Verdict fmt {} bs rest⟩
+    some ⟨m, c03Verdict fmt {} bs rest⟩
   | "write", [fmt, w, alpha, rows] => do
     let w ← decWOpts w
     let rows ← decXRows rows
@@ -330,7 +356,19 @@ def handle : Handler := fun op args impl =>
       if alpha == "auto" && fmt != "stockholm" && reprFmt fmt w.strict rows then
         verdictOf (impl == "fmt=" ++ fmt ++ " " ++ expectAln rows) ("autodetect-" ++ fmt)
       else "na"
-    some ⟨"unmodelled", verdict⟩
+    let m := match buildRows rows with
+      | none => "err-build"
+      | some b =>
+        match builtAlphabet alpha b with
+        | none => "bad-alphabet"
+        | some a =>
+          match modelWrite fmt w a b with
+          | none => "unmodelled"
+          | some out =>
+            match modelAuto w.strict out with
+            | none => "unmodelled"
+            | some r => if r.startsWith "fmt=" then r else "err"
+    some ⟨m, verdict⟩
   | "multirt", [w, o, xs] => do
     let w ← decWOpts w
     let o ← decPOpts o
@@ -356,7 +394,13 @@ def handle : Handler := fun op args impl =>
       if alpha == "auto" && st.all (fun fw => reprFmt fw.1 fw.2.strict rows) then
         verdictOf (impl == expectAln rows) "chain-conversion"
       else "na"
-    some ⟨"unmodelled", verdict⟩
+    let m := match buildRows rows with
+      | none => "err-build"
+      | some b =>
+        match builtAlphabet alpha b with
+        | none => "bad-alphabet"
+        | some a0 => chainModel st 0 ⟨a0, b.length, b.rows⟩
+    some ⟨m, verdict⟩
   | _, _ => none
 
 end Gv.Oracle.FmtOps
